@@ -96,7 +96,7 @@ func cmdFunc(args []string) int {
 	for _, r := range res {
 		if r.Status == "discharged" || r.Status == "trivial" {
 			if *verbose {
-				fmt.Printf("  ok   %-70s %s %.2fs\n", r.Obl.Name, r.Solver, r.Seconds)
+				fmt.Printf("  ok   %-70s %s %.2fs %s\n", r.Obl.Name, r.Solver, r.Seconds, r.Obl.Pos)
 			}
 		} else {
 			bad++
